@@ -35,7 +35,10 @@ claim("C01",
       "Proof of the hash gate (a piece buffer is written only after VerifyHash accepted exactly that buffer, and a failed "
       "disk write is never reported as success), that the piece bit / Done flag are set only in the handler of a verified "
       "and successfully written piece, and whole-program whitelists of the functions that may write to storage or set "
-      "Piece.Done. Partial: goroutine interleavings, SHA-1 collision freeness and storage semantics are outside.",
+      "Piece.Done; that a block received from a peer is copied to exactly its offset in the piece buffer and only when it "
+      "is a block of the piece with the announced length (otherwise the buffer is untouched); and that the web-seed "
+      "downloader releases a buffer only while it owns it (ghost ownership across its function literals). Partial: "
+      "goroutine interleavings, SHA-1 collision freeness and storage semantics are outside.",
       "DESIGN.md §4 C01")
 
 claim("C05",
@@ -63,7 +66,9 @@ claim("C08",
       "Proof, for every byte sequence a peer can send, that the reader never allocates beyond the configured message size "
       "or 16 KiB per block, never reaches its explicit panic, delivers only the expected message kinds; that the metadata "
       "downloader and the bitfield never index out of range under their representation invariants (which every operation "
-      "re-establishes). Partial: isolation between peers and deadlock freedom are concurrency properties outside.",
+      "re-establishes); that the piece downloader never indexes its buffer out of range, never reaches its explicit "
+      "panics and only requests or cancels blocks of its piece (representation invariant established by New from the "
+      "block layout). Partial: isolation between peers and deadlock freedom are concurrency properties outside.",
       "DESIGN.md §4 C08")
 
 claim("C14",
